@@ -212,6 +212,7 @@ def gen(rng, n):
         bud = budget(fields)
         mem = rng.choice([102400, 102400, max(1, bud), bud + 1, max(1, bud - 1), body_len, body_len + 1, max(1, body_len - 1),
                           max(1, body_len - 2), max(1, body_len // 2), bud + rng.randrange(0, 30), rng.randrange(1, 64)])
+        mem = max(1, mem)
         framing = rng.choice(['cl', 'cl', 'chunked'])
         if framing == 'chunked':
             mem = max(mem, 5)
